@@ -104,6 +104,11 @@ def notations():
     N.append(("yyyy_mon_dd_sp", "num", 0, lambda t: '%04d %s %02d %02d:%02d:%02d %s msg' % (t["y"], MON[t["m"] - 1], t["d"], t["H"], t["M"], t["S"], offs(t["off"], True))))
     N.append(("mid_line", "num", 0, lambda t: 'kernel: something happened at %04d-%02d-%02dT%02d:%02d:%02d%s ok' % (D(t) + (offs(t["off"], True),))))
     N.append(("epoch_s", "epoch", 0, lambda t: '%d msg' % t["epoch"]))
+    # level / weekday, month-day with a dash, time, year, zone name (FedoraRemix29 hawkeye.log family)
+    N.append(("hawkeye_level", "abbr", 0, lambda t: 'INFO %s-%02d %02d:%02d:%02d %04d %s something' % (MON[t["m"] - 1], t["d"], t["H"], t["M"], t["S"], t["y"], t["abbr"])))
+    N.append(("hawkeye_bracket", "abbr", 0, lambda t: '[ERROR] %s-%02d %02d:%02d:%02d %04d %s something' % (MON[t["m"] - 1], t["d"], t["H"], t["M"], t["S"], t["y"], t["abbr"])))
+    N.append(("hawkeye_wday", "abbr", 0, lambda t: '%s %s-%02d %02d:%02d:%02d %04d %s something' % (wd(t["y"], t["m"], t["d"]), MON[t["m"] - 1], t["d"], t["H"], t["M"], t["S"], t["y"], t["abbr"])))
+    N.append(("hawkeye_nozone", "none", 0, lambda t: 'WARN %s-%02d %02d:%02d:%02d %04d something' % (MON[t["m"] - 1], t["d"], t["H"], t["M"], t["S"], t["y"])))
     return N
 
 
